@@ -12,7 +12,7 @@ from .utils import (pad, bytes_to_double, bytes_to_int, bytes_to_signed_int, get
                     coord_to_index, gen_coord_list, FileOffset, WrongDimensionalityError,
                     get_correlated_diagonal_length, get_anticorrelated_diagonal_length)
 import seismic_zfp
-from .sgzconstants import DISK_BLOCK_BYTES, SEGY_FILE_HEADER_BYTES, SEGY_TEXT_HEADER_BYTES
+from .sgzconstants import DISK_BLOCK_BYTES, SEGY_FILE_HEADER_BYTES, SEGY_TEXT_HEADER_BYTES, EBCDIC_TO_ASCII
 from .headers import HeaderwordInfo
 
 try:
@@ -1002,5 +1002,4 @@ class SgzReader(object):
         return segyio.segy.Field(self.file_binary_header, kind='binary')
 
     def get_file_text_header(self):
-        return [bytearray(self.file_text_header.decode("cp037"),
-                          encoding="ascii", errors="ignore")]
+        return [bytearray(bytes(self.file_text_header).translate(EBCDIC_TO_ASCII))]
